@@ -163,6 +163,18 @@ func runC16(env *Env, tier string) {
 	env.Cfg["sessions"] = nsess
 	saves, readsWithData, structural := 0, 0, 0
 	nops := 5 + ch.Choose("ops", 76)
+	// a store call that panics on the caller's goroutine is the store's failure, not the harness's
+	defer func() {
+		if r := recover(); r != nil {
+			if _, ok := r.(harnessError); ok {
+				panic(r)
+			}
+			if _, ok := r.(abortRun); ok {
+				panic(r)
+			}
+			env.Violate("C16/"+kind+"/panic", "a store operation panicked: %v", r)
+		}
+	}()
 	for i := 0; i < nops && !env.Failed(); i++ {
 		u := stores[ch.Choose("session", len(stores))]
 		m := u.m
@@ -218,6 +230,14 @@ func runC16(env *Env, tier string) {
 			hi := lo + ch.Choose("span", 8) - 2
 			if ch.Chance("whole", 1, 4) {
 				lo, hi = 0, m.maxN+5
+			}
+			switch ch.Choose("oddrange", 12) {
+			case 1:
+				lo, hi = m.maxN+3, 1 // clearly inverted
+			case 2:
+				hi = 1 << 50 // far beyond the end
+			case 3:
+				lo, hi = -5, m.maxN+1
 			}
 			want := m.rangeOf(lo, hi)
 			if op == 6 {
